@@ -118,6 +118,7 @@ func init() {
 				out = append(out, Instance{Scenario: "c02_resume", Params: mustJSON(ResumeParams{Backend: b}), Bound: 0, Shards: 2})
 			}
 			out = append(out, Instance{Scenario: "c02_readonly_dcp", Params: mustJSON(struct{}{}), Bound: 0, Note: "read-only mode through the real Dcp.Start(), also for a backend handed in with SetMetadata"})
+			out = append(out, Instance{Scenario: "c15_start", Params: mustJSON(StartParams{Reset: "latest", Mode: "infinite"}), Bound: 1, Shards: 4, Note: "autoReset=latest under single start-up faults: a session that starts has requested every vBucket without a checkpoint at its current high seqno (or the start-up terminated)"})
 			out = append(out, Instance{Scenario: "c12_ends", Params: mustJSON(EndsParams{Depth: 2}), Bound: 0, Shards: 4, Note: "the stream requests a running session issues when it re-opens a vBucket (after document / marker-only / seqno-advanced events): tracked position, the original end (unbounded in infinite mode)"})
 			out = append(out, Instance{Scenario: "c02_sessions", Params: mustJSON(SessionsParams{}), Bound: 0, Shards: 2, Note: "three sessions of one process with the store moving in between: events acknowledged and saved by each session (couchbase backend)"})
 			out = append(out, Instance{Scenario: "c02_sessions", Params: mustJSON(SessionsParams{Backend: "file"}), Bound: 0, Shards: 2, Note: "the same on the file backend, which rewrites its whole file on every save: what a session with a larger assignment stored for the other vBuckets survives the saves of a smaller one"})
